@@ -55,7 +55,10 @@ def _walk(obj, path, slots, shape, seen, depth=0, light=False):
                 _walk(v, "%s.%s" % (path, k), slots, shape, seen, depth + 1, light)
         # plain attributes (stray tensors shadowing a parameter, list/dict members)
         names = []
-        for k, v in obj.__dict__.items():
+        # sorted: a plain tensor temporarily shadowing a registered parameter is a new __dict__ key each time,
+        # so the insertion order of such attributes carries no meaning (the registration order of the
+        # parameters themselves is recorded above and is judged)
+        for k, v in sorted(obj.__dict__.items(), key=lambda kv: kv[0]):
             if k in ("_parameters", "_buffers", "_modules") or (k.startswith("_") and not _holds_tensor(v)):
                 continue
             if _holds_tensor(v):
